@@ -6,6 +6,7 @@
    The composition over the whole API is checked per run: every file the implementation returns for a malformed
    specification is decoded by the strict reader and compared with the specification (harness/props/c12.py). *)
 From DV Require Import Model.ApiDispatch Model.EflrReader Proofs.SegmentP Proofs.EflrP Proofs.PrimP Proofs.BuilderP.
+From DV Require Import Model.ApiDispatch Model.FileReader Proofs.FileP.
 
 Theorem C12_physical : forall c recs bs,
   forallb wf_rec recs = true -> write_file c recs = OK bs -> read_records c bs = Some (filter nonempty_body recs).
@@ -52,8 +53,18 @@ Example C12_empty_list :
   /\ dec_oattr global_default [44; 0; 7] = Some (Some {| d_count := 0; d_code := 7; d_units := None; d_values := None |}, []).
 Proof. vm_compute. split; reflexivity. Qed.
 
+(* END TO END over the modelled API: after any sequence of API calls and earlier writes (run_actions from the empty
+   file), whatever DLISFile.write returns — for any write options and either mode — is a well-formed file: it has the standard layout and the complete strict reader accepts it. So a write either fails or returns a file a standard reader can read. *)
+Theorem C12_api_returned_file_is_well_formed : forall l ps hc w st' bs,
+  let st := snd (run_actions ps b_init l) in
+  write hc st w = (st', OK bs) ->
+  let cfg := {| sul_seq := w_seq w; sul_vrl := w_vrl w; sul_id := w_ident w |} in
+  Layout cfg bs /\ exists lrds, read_logical cfg bs = Some lrds.
+Proof. intros l ps hc w st' bs st H cfg. exact (every_written_file_is_readable l ps hc w st' bs H). Qed.
+
 Print Assumptions C12_physical.
 Print Assumptions C12_explicit.
 Print Assumptions C12_rejects_ident.
 Print Assumptions C12_rejects_incomplete.
 Print Assumptions C12_rejects_bad_data.
+Print Assumptions C12_api_returned_file_is_well_formed.
